@@ -267,7 +267,7 @@ struct Judge {
         std::set<int> S2; Contents g2; ldb_t *db2 = nullptr; DbOptions o2;
         // anything that was written after recovery (follow-up) may or may not be there: only judge the recorded batches
         std::set<int> allowed2 = allowed;
-        bool ok2 = open_and_judge_nested("/sim/img2", ic2, (int)(s2.seed & 1), required, allowed2, o2);
+        bool ok2 = open_and_judge_nested("/sim/img2", ic2, (int)(s2.seed & 1), required, allowed2, o2, S);
         (void)S2; (void)g2; (void)db2;
         if (!ok2) return false;
       }
@@ -276,7 +276,7 @@ struct Judge {
     return true;
   }
 
-  bool open_and_judge_nested(const string &dir, const ImageCase &ic, int paranoid, const std::set<int> &required, const std::set<int> &allowed, DbOptions &opt) {
+  bool open_and_judge_nested(const string &dir, const ImageCase &ic, int paranoid, const std::set<int> &required, const std::set<int> &allowed, DbOptions &opt, const std::set<int> &first_recovery) {
     // the follow-up batch (if its record reached the image) is tolerated: strip it before judging
     Config c = p.cfg; c.paranoid = paranoid;
     opt.set(c, true);
@@ -304,6 +304,11 @@ struct Judge {
       return false;
     }
     for (int bi : S) if (!allowed.count(bi)) { violation("C05", "unissued_batch", "%s image: unissued batch present", ic.family); return false; }
+    // "crashing during recovery itself loses nothing further": whatever the first recovery had found must still be found
+    for (int bi : first_recovery) if (!S.count(bi)) {
+      violation("C05", "nested_lost_further", "%s image (%s): batch %s was recovered by the first open after the crash, but is lost when the recovery itself is interrupted and repeated", ic.family, ic.spec.describe().c_str(), printable(R.batches[bi].marker).c_str());
+      return false;
+    }
     return true;
   }
 };
